@@ -1119,6 +1119,10 @@ class Executor:
             neg = isinstance(op, (ast.IsNot, ast.NotEq))
             r = self.equal(e, op, a, b, st)
             return NOT(r) if neg else r
+        if isinstance(op, (ast.In, ast.NotIn)) and b.sort in ('PyList', 'Tuple') and a.sort in ('Str', 'Int') \
+                and all(i.sort == a.sort for i in b.meta['items']):
+            r = OR(*[EQ(a.e, i.e) for i in b.meta['items']])
+            return NOT(r) if isinstance(op, ast.NotIn) else r
         if a.sort == 'Int' and b.sort == 'Int':
             sym = {ast.Lt: '<', ast.LtE: '<=', ast.Gt: '>', ast.GtE: '>='}.get(type(op))
             if sym:
